@@ -7,7 +7,7 @@ are abstracted to `Nat` codes.  Pointer identity matters in two places of the Go
 * `*PID` objects: a `Pid` carries a `tag` (the pointer identity), its `id` (= PID.ID()) and its
   `name` (= PID.Name()).  `PID.Equals` compares IDs only.  The `watchers/watchees` maps store `*PID`
   values under the ID key, so the model stores the whole `Pid` (with its tag).
-* `*pidNode` objects: `descendants`, `parentNode` and the `names` index hold node POINTERS.  A pointer
+* `*pidNode` objects: `descendants`, `parentNode`, the `names` index and the `shadowed` lists hold node POINTERS.  A pointer
   is modelled as `Ptr = (id, ref)`: the (immutable) `id` field of the node object and its allocation
   number `ref`.  Only LIVE node objects (those whose `pid` field is non-nil, i.e. exactly the values
   of `tree.pids`) are kept in the model; a pointer whose `ref` is not the one stored under its id in
@@ -72,12 +72,15 @@ structure Node where
 structure Tree where
   pids : List (Nat × Node)
   names : List (Nat × Ptr)
+  /-- per name, the node objects whose `names` entry was taken over by a later node of the same name
+      (oldest first); `deleteNode` hands the entry back to the most recent survivor -/
+  shadowed : List (Nat × List Ptr)
   counter : Int
   next : Nat                       -- allocation counter for node objects
   rootUsed : Bool                  -- the single rootNode object has been handed out
   deriving Repr
 
-def Tree.empty : Tree := ⟨[], [], 0, 0, false⟩
+def Tree.empty : Tree := ⟨[], [], [], 0, 0, false⟩
 
 /-- ID of the system's NoSender PID -/
 def NOS : Nat := 0
@@ -147,7 +150,11 @@ def Tree.addNode (t : Tree) (parent p : Pid) : Tree × Res :=
       let c : Node := { ref := t.next, pid := p, parent := some ⟨parent.id, pn.ref⟩,
                         watchers := [(parent.id, parent)], watchees := [], desc := [] }
       let t1 := (t.modNode parent.id (Node.setDesc p.id t.next)).modNode parent.id (Node.setWatchee p.id p)
-      ({ t1 with pids := aset p.id c t1.pids, names := aset p.name ⟨p.id, t.next⟩ t1.names,
+      -- `if prev, taken := x.names[name]; taken && prev != childNode`: the new node object is never `prev`
+      let sh := match aget p.name t.names with
+        | some prev => aset p.name ((aget p.name t.shadowed).getD [] ++ [prev]) t.shadowed
+        | none => t.shadowed
+      ({ t1 with pids := aset p.id c t1.pids, names := aset p.name ⟨p.id, t.next⟩ t1.names, shadowed := sh,
                  counter := t.counter + 1, next := t.next + 1 }, .ok)
 
 /-- attachNodeLocked; the cycle guard is explained in the header -/
@@ -194,14 +201,32 @@ def scrub (n : Node) (m : Node) : Node :=
     watchers := if (aget m.pid.id n.watchees).isSome then adel n.pid.id m.watchers else m.watchers
     desc := if isParent then adel n.pid.id m.desc else m.desc }
 
+/-- the name bookkeeping of one iteration of deleteNode's second loop: `(names, shadowed)` after the node
+    object `p` (a live node named `name`) is gone -/
+def dropName (names : List (Nat × Ptr)) (shadowed : List (Nat × List Ptr)) (name : Nat) (p : Ptr) :
+    List (Nat × Ptr) × List (Nat × List Ptr) :=
+  let prevs := (aget name shadowed).getD []
+  if aget name names = some p then
+    -- `delete(x.names, n.name)`, then hand the name back to the most recent survivor it was taken from
+    match prevs.getLast? with
+    | some q => (aset name q names, if prevs.length = 1 then adel name shadowed else aset name prevs.dropLast shadowed)
+    | none => (adel name names, shadowed)
+  else
+    -- `n` lost the entry earlier: it must not be handed back to a dead node
+    let kept := prevs.filter (· != p)
+    if prevs.isEmpty then (names, shadowed)
+    else (names, if kept.isEmpty then adel name shadowed else aset name kept shadowed)
+
 /-- one iteration of deleteNode's second loop for the node object `p` points to -/
 def Tree.removeNode (t : Tree) (p : Ptr) : Tree :=
   match t.live p with
   | none => t                                   -- `n.pid.Load() == nil`: already cleared
   | some n =>
+    let ns := dropName t.names t.shadowed n.pid.name p
     { t with
       pids := amapv (scrub n) (adel p.id t.pids)
-      names := if aget n.pid.name t.names = some p then adel n.pid.name t.names else t.names
+      names := ns.1
+      shadowed := ns.2
       counter := t.counter - 1 }
 
 def Tree.deleteNode (t : Tree) (p : Pid) : Tree :=
